@@ -184,7 +184,7 @@ def judge(ctx, engine, o, in_model_region=True):
         bad.append('%s: the input document was mutated by the load' % engine)
     if 'show' in o and o.get('conf') is not None:
         rules = o.get('lax_rules') or []
-        if engine != 'v1' and o.get('lax_conf') is None and rules and all(ctx.is_open_region(x) for x in rules):
+        if o.get('lax_conf') is None and rules and all(ctx.is_open_region(x) for x in rules):
             known.extend(rules)
         else:
             bad.append('%s: returned a non-conforming instance: %s' % (engine, o['conf']))
@@ -198,7 +198,7 @@ def run(ctx):
         if w and w.get('kind') == 'doc':
             res = ctx.impl('c05', {'cases': [strip(w['case'], [w['doc']])]})['cases'][0]
             rec = [d for d in res['docs'] if d['kind'] == 'listed'][0]
-            o = rec['v0']
+            o = rec[w.get('engine', 'v0')]
             fails = ('show' in o and o.get('conf') is not None)
             ctx.count(1, key='witness:' + f['id'])
             ctx.known_finding(f['id'], still_fails=fails)
